@@ -11,21 +11,31 @@ Recs == ndJsonDeserialize(IOEnv.TRACE_FILE)
 VARIABLES i
 Ops(r) == [k \in DOMAIN r.ops |-> [kind |-> r.ops[k].kind, p |-> r.ops[k].p, p2 |-> r.ops[k].p2, d |-> r.ops[k].d, n |-> r.ops[k].extra]]
 
-\* operations that really happened: everything before the faulted one
-Performed(r) == IF r.fault.at = 0 THEN Ops(r) ELSE SubSeq(Ops(r), 1, r.fault.at - 1)
+\* operations that really happened: everything that was logged except the faulted operation itself
+\* (the log is written before each operation; after a crash it ends there; after an injected error the
+\* code may go on - e.g. shutil.move falls back to a copy when its rename fails - and whatever it
+\* logged afterwards did happen)
+Before(r) == IF r.fault.at = 0 THEN Ops(r) ELSE SubSeq(Ops(r), 1, r.fault.at - 1)
+After(r) == IF r.fault.at = 0 THEN <<>> ELSE SubSeq(Ops(r), r.fault.at + 1, Len(r.ops))
 \* leftovers of an earlier interrupted edit (follow-up records) are part of the initial state
 Start(r) == WithFiles(EmptyFs("Old"), [k \in DOMAIN r.init |-> <<r.init[k][1], r.init[k][2], r.init[k][3]>>])
-Predicted(r) ==
-    LET fs == Replay(Start(r), Performed(r))
+AtFault(r) ==
+    LET fs == Replay(Start(r), Before(r))
     IN IF r.fault.at > 0 /\ r.fault.kind \in {"torn", "torncrash"}
        THEN Torn(fs, Ops(r)[r.fault.at], r.fault.k) ELSE fs
+Predicted(r) == Replay(AtFault(r), After(r))
+EveryPrefixSafe(r) == /\ AllPrefixesSafe(Start(r), Before(r)) /\ Safe(AtFault(r))
+                      /\ AllPrefixesSafe(AtFault(r), After(r))
 
 Clause(r, c) ==
   CASE c = "C17.safe"   -> r.final \in {"Old", "New"}
     [] c = "C17.error"  -> /\ (r.status = "error" => r.final \in {"Old", "New"})
                            /\ (r.status = "ok" => (r.final = "New" \/ (r.same /\ r.final = "Old")))
                            /\ (~r.encodable => (r.status = "error" /\ r.final = "Old"))
-    [] c = "C17.prefix" -> AllPrefixesSafe(Start(r), Performed(r)) /\ Safe(Predicted(r))
+    [] c = "C17.works"  -> \* without a fault an encodable edit succeeds (a run the guard or the harness broke
+                           \* must not pass for "nothing was lost")
+                           (r.fault.at = 0 /\ r.fault.kind = "none" /\ r.encodable) => r.status = "ok"
+    [] c = "C17.prefix" -> EveryPrefixSafe(r)
     [] c = "X17.fsmodel" -> \/ OnDisk(Predicted(r), "M") = r.final
                             \/ (r.same /\ {OnDisk(Predicted(r), "M"), r.final} \subseteq {"Old", "New"})
     [] c = "C18.readonly" -> r.status = "ok" /\ Len(r.ops) = 0 /\ r.added = <<>> /\ r.removed = <<>> /\ r.changed = <<>>
